@@ -73,8 +73,84 @@ func smallCarry(m *model.Model, v ssa.Value, depth int, seen map[ssa.Value]bool)
 	return false
 }
 
+// runCarryThreshold: "word + carry still fits" is "the sum is below the base". A comparison of such
+// a sum (a word of a vector plus something) with a constant next to the base must say exactly
+// that or its negation: < base, >= base, <= base-1, > base-1. `sum < base-1` sends the sum
+// base-1 — a valid word — down the carry path: the word is cleared and the carry moves on.
+func runCarryThreshold(m *model.Model, s *ob.Set) {
+	const R = "WORDSUM"
+	base := m.PkgConst("_DB")
+	for _, fn := range m.Funcs {
+		if !m.InDecimalPkg(fn) || len(fn.Blocks) == 0 || !inKernelLayer(m, fn) || fn.Synthetic != "" {
+			continue
+		}
+		live := m.Live(fn)
+		n, bad := 0, ""
+		for _, b := range fn.Blocks {
+			if !live[b.Index] {
+				continue
+			}
+			for _, in := range b.Instrs {
+				bo, ok := in.(*ssa.BinOp)
+				if !ok {
+					continue
+				}
+				op := bo.Op
+				x, y := bo.X, bo.Y
+				if _, isC := x.(*ssa.Const); isC {
+					mo, okm := mirrorOpTok[op]
+					if !okm {
+						continue
+					}
+					x, y, op = y, x, mo
+				}
+				kc, ok := y.(*ssa.Const)
+				if !ok || kc.Value == nil || kc.Value.Kind() != constant.Int {
+					continue
+				}
+				dv, exact := constant.Int64Val(constant.BinaryOp(kc.Value, token.SUB, base))
+				if !exact || dv < -1 || dv > 1 {
+					continue
+				}
+				sum, ok := stripConv(x).(*ssa.BinOp)
+				if !ok || sum.Op != token.ADD {
+					continue
+				}
+				isWordLoad := func(v ssa.Value) bool {
+					u, ok := stripConv(v).(*ssa.UnOp)
+					if !ok || u.Op != token.MUL {
+						return false
+					}
+					ia, ok := u.X.(*ssa.IndexAddr)
+					return ok && m.IsWordSlice(ia.X.Type())
+				}
+				if !isWordLoad(sum.X) && !isWordLoad(sum.Y) {
+					continue
+				}
+				n++
+				good := false
+				switch {
+				case (op == token.LSS || op == token.GEQ) && dv == 0:
+					good = true
+				case (op == token.LEQ || op == token.GTR) && dv == -1:
+					good = true
+				case op == token.EQL || op == token.NEQ:
+					good = true
+				}
+				if !good {
+					bad = fmt.Sprintf("%s: a sum of a vector word and a carry is compared %s %s; it fits a decimal word exactly when it is below the base %s, and this test puts the boundary one off", m.InstrPos(bo), op, kc.Value.ExactString(), base.ExactString())
+				}
+			}
+		}
+		if n > 0 {
+			s.Check(bad == "", R, fn.Name()+"/carry-threshold", m.Pos(fn.Pos()), fmt.Sprintf("%d comparison(s) of a word sum with the base, all at the base", n), bad)
+		}
+	}
+}
+
 func runWordSum(m *model.Model, s *ob.Set) {
 	const R = "WORDSUM"
+	runCarryThreshold(m, s)
 	for _, fn := range m.Funcs {
 		if !m.InDecimalPkg(fn) || len(fn.Blocks) == 0 || !inKernelLayer(m, fn) {
 			continue
